@@ -739,3 +739,66 @@ Example c01_builtin_never_entered_nonvacuous :
   exists t, run (init_of ex_cfg2) tr <> None /\ nth_error (tasks (st_of ex_cfg2 tr)) 0 = Some t /\ t_builtin t = true /\
     t_st t = TDone (Some BWild).
 Proof. eexists. vm_compute. repeat split; try reflexivity; discriminate. Qed.
+
+(** * at rest everything has been answered *)
+(* a quiescent point of a running server with at least one slot at which no handler is executing (every gate has
+   been given): the queue is empty and every dispatch unit has finished *)
+Theorem c01_all_finished_at_rest c s : reach c s -> quiescent s = true -> running s = true -> 0 < cf_K c ->
+  (forall k t, nth_error (tasks s) k = Some t -> t_st t <> TRunning) ->
+  inq s = [] /\ forall u un, nth_error (units s) u = Some un -> u_st un = UFinished.
+Proof.
+  intros R Qu Rn Kp Nr. pose proof (no_crash _ _ R) as Cr. pose proof (reach_reachf _ _ R) as Rf.
+  assert (Z : SrvC06.slots_used s = 0).
+  { unfold SrvC06.slots_used. apply countb_zero_forall. intros t It. apply In_nth_error in It as (k & E).
+    unfold SrvC06.holds. destruct (t_st t) eqn:St; auto.
+    - destruct (Nr _ _ E St).
+    - exfalso. apply (SrvC03.quiescent_none _ (LRelHandled k) Qu). eapply SrvC03.handled_enabled; eauto. }
+  assert (Fin : forall k t, nth_error (tasks s) k = Some t -> SrvC03.released s (t_unit t) = true -> finished t = true).
+  { intros k t E Rl. unfold finished.
+    destruct (SrvC03.quiescent_task _ _ _ _ R Cr Qu E Rl) as [Sk|[(b & Dn)|[Rg|(_ & _ & Q)]]].
+    - rewrite Sk. auto.
+    - rewrite Dn. auto.
+    - destruct (Nr _ _ E Rg).
+    - lia. }
+  destruct (SrvNoCrash.c03_all_dispatched_nc c s R Qu Rn) as (Iq & _ & _ & Rel).
+  { intros j n E Ru Nn Rl. pose proof (Fin _ _ E Rl) as F. unfold finished in F.
+    destruct (t_st n) eqn:St; try discriminate; eauto.
+    exfalso. unfold runnable in Ru. destruct (t_pre n) eqn:P; [discriminate|].
+    apply (task_nopre_noskip c s j n Rf E P). auto. }
+  split; auto. intros u un Eu.
+  pose proof (Rel u (nth_error_some_lt _ _ _ Eu)) as Ru.
+  destruct (SrvNoCrash.c01_quiescent_complete_nc c s R Qu) as [Qa Qb].
+  assert (Af : all_finished s u = true).
+  { unfold all_finished, unit_tasks. apply forallb_forall. intros t It. apply filter_In in It as [It Ut].
+    apply Nat.eqb_eq in Ut. apply In_nth_error in It as (k & E). apply (Fin k t E). rewrite Ut. auto. }
+  unfold SrvC03.released, SrvC03.rel_in in Ru. rewrite Eu in Ru. unfold SrvC03.released_u in Ru.
+  destruct (u_st un) eqn:Su; try discriminate; auto.
+  - rewrite (Qa _ _ Eu Su) in Af. discriminate.
+  - destruct (Qb _ _ Eu Su).
+Qed.
+
+(* ... hence every accepted message has been answered: each unit with something to say was delivered exactly once
+   (and its message is in the output history: c01_output_history), each silent one never *)
+Theorem c01_all_answered_at_rest c tr s oss : run (init_of c) tr = Some (s, oss) ->
+  quiescent s = true -> running s = true -> 0 < cf_K c ->
+  (forall k t, nth_error (tasks s) k = Some t -> t_st t <> TRunning) ->
+  inq s = [] /\
+  forall u, u < length (units s) ->
+    ufin s u = true /\
+    (responses (unit_tasks s u) <> [] -> countb (is_deliver u) tr = 1) /\
+    (responses (unit_tasks s u) = [] -> countb (is_deliver u) tr = 0).
+Proof.
+  intros H Qu Rn Kp Nr.
+  assert (R : reach c s) by (eapply run_reach; [apply reach_init|eauto]).
+  destruct (c01_all_finished_at_rest c s R Qu Rn Kp Nr) as [Iq Fu]. split; auto.
+  intros u Lu. destruct (nth_error (units s) u) as [un|] eqn:Eu; [|apply nth_error_None in Eu; lia].
+  assert (F : ufin s u = true) by (unfold ufin; rewrite Eu, (Fu _ _ Eu); auto).
+  split; auto. apply (c01_delivered_iff_nonsilent c tr s oss u H F).
+Qed.
+
+Example c01_all_answered_at_rest_nonvacuous :
+  let tr := ex_tr_batch ++ [LRelDeliver 0; LRelNext] in
+  run (init_of ex_cfg) tr <> None /\ quiescent (st_of ex_cfg tr) = true /\ running (st_of ex_cfg tr) = true /\
+  0 < cf_K ex_cfg /\ length (units (st_of ex_cfg tr)) = 1 /\
+  forallb (fun t => match t_st t with TRunning => false | _ => true end) (tasks (st_of ex_cfg tr)) = true.
+Proof. vm_compute. repeat split; auto. discriminate. Qed.
